@@ -42,7 +42,7 @@ def C07Full : Prop :=
 
 /-- (a) `max_size 1`, nothing created yet, `resize(0)`; a zero-wait get then obtains an object -/
 def C07_trace_a : List Action :=
-  [ .start (.resize 0), .step 0 .run, .step 0 .run, .step 0 .run,
+  [ .start (.resize 0), .step 0 .run, .step 0 .run,
     .start (.get { wait := .zero }), .step 1 .run, .step 1 .run, .step 1 .run, .step 1 .ok ]
 
 /-- (b) `max_size 2`, two objects out, `resize(1)`, `resize(2)`; a third object is admitted -/
@@ -50,8 +50,8 @@ def C07_trace_b : List Action :=
   let g : Spec := .get {}
   [ .start g, .step 0 .run, .step 0 .run, .step 0 .run, .step 0 .ok, .step 0 .run,
     .start g, .step 1 .run, .step 1 .run, .step 1 .run, .step 1 .ok, .step 1 .run,
-    .start (.resize 1), .step 2 .run, .step 2 .run, .step 2 .run,
-    .start (.resize 2), .step 3 .run, .step 3 .run, .step 3 .run,
+    .start (.resize 1), .step 2 .run, .step 2 .run,
+    .start (.resize 2), .step 3 .run, .step 3 .run,
     .start (.get { wait := .zero }), .step 4 .run, .step 4 .run, .step 4 .run, .step 4 .ok ]
 
 /-- the pinned code violates the property: after `resize(0)` returned, a get is admitted
@@ -96,15 +96,13 @@ theorem C07_effective_when_collected_partial (cfg : Cfg) (acts : List Action)
 /-- `status().max_size` is the target as soon as the resize has taken the mutex, and idle
 objects are released front first, each detached, one per free token, while `size` exceeds
 the new limit -/
-theorem C07_max_size_set (s s' : State) (i n old : Nat) (c : Bool) (hl : s.lock = none)
-    (h : stepResize s i n c .lock old = some s') :
+theorem C07_max_size_set (s s' : State) (i n old : Nat) (hl : s.lock = none)
+    (hc : s.sem.closed = false) (h : stepResize s i n false .lock old = some s') :
     s'.maxSize = n ∧ s'.debt = s.debt + (s.maxSize - n) := by
-  simp only [stepResize, hl] at h
+  simp only [stepResize, hl, hc, Bool.false_eq_true, if_false] at h
   repeat' split at h
   all_goals (simp only [Option.some.injEq] at h; subst h)
-  all_goals first
-    | exact ⟨rfl, rfl⟩
-    | (simp only [finishResize, returnResize]; split <;> exact ⟨rfl, rfl⟩)
+  all_goals exact ⟨rfl, rfl⟩
 
 theorem C07_shrink_iteration (s s' : State) (i n old : Nat) (c : Bool) (o : Obj) (rest : List Obj)
     (hsz : s.size > s.maxSize) (hp : 0 < s.sem.permits) (hc : s.sem.closed = false)
@@ -130,8 +128,7 @@ theorem C07_grow_exact (s s' : State) (i n old : Nat) (c : Bool)
     s'.sem.permits = s.sem.permits + ((n - old) - min (n - old) s.sem.queue.length) := by
   simp only [stepResize, Option.some.injEq] at h
   subst h
-  simp only [finishResize, returnResize]
-  split <;> exact ⟨rfl, Sem.addPermits_tokens _ _, rfl, rfl⟩
+  exact ⟨rfl, Sem.addPermits_tokens _ _, rfl, rfl⟩
 
 /-- **C07 (capacity at rest, partial).** When everything has finished and every object has
 come back, the free capacity is `max_size` plus the uncollected `debt`; with `debt = 0`
